@@ -19,7 +19,7 @@ META = dict(
     "notification reaches listeners / changes state only if authentic, inner = nonce counter and newer than the last accepted one; an accepted one is delivered under (1,iid) with the "
     "format's decoding and advances description.state_num to its GSN; otherwise nothing changes; the scanner callback never raises Base states include the last state numbers before 65535, replays of broadcasts recorded long ago under the same key, and the empty payload. Also a process restart on the same characteristic cache (what the accessory's regular advertisement had made durable is not forgotten), "
     "and a connected-session leg (c18_conn.py): a real BlePairing with a GATT session against the reference accessory at state number 65534 / 300 - subscribe, start-notify, GATT notification (once-per-session bump, roll-over, key request "
-    "held in flight and released), link drop, reconnect - with a replay of a finished epoch's broadcast at every point. Also: broadcasts far ahead that are refused now and shown again, byte for byte, after the window moved over them; runs of 320 distinct undecryptable advertisements as one step; every genuine broadcast 1..99 ahead for a known characteristic has to be accepted; repeated copies of an accepted broadcast for characteristics that report by broadcast. The pairing's scalar attributes are part of the canonical state. In the connected-session leg acceptance of a fresh genuine broadcast is demanded too whenever the pairing still holds the key.",
+    "held in flight and released), link drop, reconnect - with a replay of a finished epoch's broadcast at every point. Also: broadcasts far ahead that are refused now and shown again, byte for byte, after the window moved over them; runs of 320 distinct undecryptable advertisements as one step; every genuine broadcast 1..99 ahead for a known characteristic has to be accepted; repeated copies of an accepted broadcast for characteristics that report by broadcast. The pairing's scalar attributes are part of the canonical state. In the connected-session leg acceptance of a fresh genuine broadcast is demanded too whenever the pairing still holds the key. Also with the application's listener away for a while (what was accepted meanwhile stays accepted).",
     note="a 4-byte tag is forgeable with probability 2^-32 per try by design (not enumerable); beyond 99 ahead acceptance is allowed, not demanded",
     design_ref="DESIGN.md §4 C18",
     rule="state = canonical (description.state_num, cached state_num, listener log length); transition = one advertisement processed by the real callback; history depth as reported",
